@@ -15,6 +15,7 @@ import facts
 from facts import AnalysisBroken
 from eai import Interp, Obj, Ptr, Sym, SV, Terminal, Unsupported, StructVal, explore, read_cstr
 import driver
+import cmodel
 from driver import run_driver, render, Exit
 from symstr import SymStr
 
@@ -420,6 +421,46 @@ def rule_changeext(chk, prog, tier, C):
     r.exhaustive = True
 
 
+# ------------------------------------------------------------------ C17.e the compile stage's base command
+
+def rule_compilecommand(chk, prog, tier):
+    r = chk.rule('C17.e', 'the compile stage runs the compiler that belongs to the running driver: the path of the running executable (as the system reports it) with "-qbe" appended, whatever name the driver was invoked by; argv[0] is only a fallback when that path is unavailable', floor=8,
+                 oracle='cproc(1): "cproc-qbe" is found next to the driver; symlinked invocation names (cc) must not change it')
+    fn = prog.require_func('compilecommand', 'driver.c')
+    for exe in ('/opt/cproc/bin/cproc', '/usr/local/bin/cproc'):
+        for arg in ('cproc', 'cc', './cc', '/usr/bin/cc', '../bin/c99'):
+            for avail in (True, False):
+                def runner(it):
+                    def readlink(i2, a, e):
+                        path = bytes(read_cstr(i2, a[0])).decode()
+                        if path != '/proc/self/exe': raise Unsupported('readlink(%s)' % path)
+                        if not avail: return -1 % 2 ** 64 if False else -1
+                        b = exe.encode()
+                        if len(b) > a[2]: b = b[:a[2]]
+                        for k, ch in enumerate(b): i2.assign(a[1].obj, a[1].path[:-1] + (a[1].path[-1] + k,), ch, None)
+                        return len(b)
+                    def strdup(i2, a, e):
+                        return Ptr(i2.mkstr(list(bytes(read_cstr(i2, a[0]))), 'dup'), (0,))
+                    def strcpy(i2, a, e):
+                        src = list(bytes(read_cstr(i2, a[1]))) + [0]
+                        for k, ch in enumerate(src): i2.assign(a[0].obj, a[0].path[:-1] + (a[0].path[-1] + k,), ch, None)
+                        return a[0]
+                    def memcpy(i2, a, e):
+                        for k in range(a[2]):
+                            i2.assign(a[0].obj, a[0].path[:-1] + (a[0].path[-1] + k,), i2.load(a[1].obj, a[1].path[:-1] + (a[1].path[-1] + k,)), None)
+                        return a[0]
+                    it.models.update({'readlink': readlink, 'strdup': strdup, 'strcpy': strcpy, 'memcpy': memcpy,
+                                      'fatal': lambda i2, a, e: (_ for _ in ()).throw(Terminal('fatal', cmodel.fmt_of(i2, a, 0)))})
+                    res = it.call(fn, [Ptr(it.mkstr(list(arg.encode()), 'argv0'), (0,))])
+                    return bytes(read_cstr(it, res)).decode()
+                runs = explore(prog, runner, {}, max_runs=4, on_unsupported='keep')
+                if len(runs) != 1 or runs[0].outcome != 'return':
+                    raise AnalysisBroken('compilecommand(%s): %s %s' % (arg, runs[0].outcome if runs else '?', runs[0].detail if runs else ''))
+                want = (exe if avail else arg) + '-qbe'
+                r.instance(runs[0].value == want, 'compilecommand:argv0=%s,self=%s' % (arg, exe if avail else 'unavailable'), 'driver.c:%s' % fn.get('line'), 'expected %s, got %s' % (want, runs[0].value))
+    r.exhaustive = False
+
+
 def run(chk, tier):
     prog = facts.programs()['cproc']
     C = cfg(prog)
@@ -427,3 +468,4 @@ def run(chk, tier):
     chk.guard('C17.a2', lambda: rule_parser_complete(chk, prog, tier, C))
     chk.guard('C17.b', lambda: rule_stages(chk, prog, tier, C))
     chk.guard('C17.d', lambda: rule_changeext(chk, prog, tier, C))
+    chk.guard('C17.e', lambda: rule_compilecommand(chk, prog, tier))
